@@ -154,7 +154,7 @@ namespace CDNS {
          */
         void rotate_output(const boost::any& value) override {
             if (value.type() != typeid(std::string))
-                return;
+                throw CborOutputException("New output of a file name writer has to be given as std::string!");
 
             close();
             m_value = boost::any_cast<std::string>(value);
@@ -240,7 +240,7 @@ namespace CDNS {
          */
         void rotate_output(const boost::any& value) override {
             if (value.type() != typeid(int))
-                return;
+                throw CborOutputException("New output of a file descriptor writer has to be given as int!");
 
             close();
             m_value = boost::any_cast<int>(value);
